@@ -414,6 +414,8 @@ func (p *Parser) atStatementEnd() bool {
 		return true
 	case SemiColon:
 		p.consume(SemiColon)
+		// the ';' has been consumed, so remember that it ended the statement
+		p.didEndStatement = true
 		return true
 	default:
 		return false
